@@ -305,6 +305,10 @@ func ext۰reflect۰Value۰Uint(fr *frame, args []value) value {
 		return uint64(v)
 	case uintptr:
 		return uint64(v)
+	case symI:
+		if r, ok := symConv(types.Typ[types.Uint64], v); ok && !v.signed {
+			return r
+		}
 	}
 	panic("reflect.Value.Uint")
 }
@@ -501,6 +505,10 @@ func ext۰reflect۰Value۰Float(fr *frame, args []value) value {
 		return float64(v)
 	case float64:
 		return float64(v)
+	case symF:
+		if r, ok := symConv(types.Typ[types.Float64], v); ok {
+			return r
+		}
 	}
 	panic("reflect.Value.Float")
 }
@@ -523,6 +531,11 @@ func ext۰reflect۰Value۰Int(fr *frame, args []value) value {
 		return int64(x)
 	case int64:
 		return x
+	case symI:
+		if r, ok := symConv(types.Typ[types.Int64], x); ok && x.signed {
+			return r
+		}
+		panic(rtErr(fr, "reflect: call of reflect.Value.Int on an unsigned symbolic value"))
 	default:
 		panic(rtErr(fr, fmt.Sprintf("reflect: call of %s", fmt.Sprintf("reflect.(Value).Int(%T)", x))))
 	}
